@@ -298,6 +298,7 @@ class World(object):
         self.reactor = ns.reactor
         self.reactor.reset(self)
         ns.jitter.world = self
+        self.deferred_objs = {}      # rid -> Deferred returned by the call (for callbacks that chain)
         self.seq = 0                 # dispatch counter
         self.cur = None              # current dispatch (seq, kind, conn)
         self.events = []
@@ -514,9 +515,16 @@ class World(object):
                         loss_ci = c.idx
                 v = (type(val_obj).__name__, loss_ci, isinstance(val_obj, (ValueError, TypeError)))
             world.ev("F", world.seq, world.now, rid, ok, _plain(v))
+            chained = None
             for st in (then or ()):
                 if st.get("when", "ok") == ("ok" if ok else "err") or st.get("when") == "any":
+                    r0 = world.rid
                     world._nested_step(st)
+                    if st.get("chain") and world.rid > r0:
+                        # the callback returns the Deferred of the call it made (Deferred chaining)
+                        chained = world.deferred_objs.get(world.rid)
+            if chained is not None:
+                return chained
             # an application callback may hand a value on to the next callback of its chain
             return world.reqs[rid].get("cbret") if ok else None
         d.addCallbacks(lambda v: fire(True, v), lambda f: fire(False, f))
@@ -574,6 +582,7 @@ class World(object):
                     rst = "ok"
                 self.ev("R", self.seq, self.now, rid, "deferred", _plain(mid),
                         (st0, type(getattr(proto, "state", None)).__name__), rst)
+                self.deferred_objs[rid] = res
                 self._track_deferred(rid, res, then)
             else:
                 self.ev("R", self.seq, self.now, rid, "none", _plain(res),
